@@ -269,7 +269,11 @@ def check(model, rep, tier):
         rep.instance("S10", f.loc())
         ok = Matcher(f).all_of(["$pos = df.select(pos_cols)", "$rv = df.select(rot_cols)", "$cols = $pos.columns + $rv.columns",
                                 "$fc = [$c for $c in df.columns if $c not in $cols]", "$feat = df.select($fc)", "$rot = Rotation.from_rotvec($rv.to_numpy())",
-                                "return cls($pos.to_numpy(), $rot, features=$feat)"])[0]
+                                "return cls($pos.to_numpy(), $rot, features=$feat)"])[0] or \
+            Matcher(f).all_of(["$pos = df.select(pos_cols)", "$rv = df.select(rot_cols)", "$cols = $pos.columns + $rv.columns",
+                               # the complement taken by polars itself: every column that is not a position / rotation column, in frame order
+                               "$feat = df.drop($cols, ...)", "$rot = Rotation.from_rotvec($rv.to_numpy())",
+                               "return cls($pos.to_numpy(), $rot, features=$feat)"])[0]
         rep.ob("S10", f.anchor, "from_dataframe reads positions from pos_cols, the rotation vector from rot_cols and keeps every other column as a feature, in column order",
                ok, "", node=f.node, fn=f, clause="layout", stmt="def from_dataframe body")
     # funnels
@@ -312,8 +316,21 @@ def check(model, rep, tier):
         rep.ob("S10", tf.anchor, "to_file and from_file choose Parquet for the same suffix set and CSV otherwise", ok, f"writer {tw}, reader {tr}"[:300], node=tf.node,
                fn=tf, clause="layout", stmt="suffix dispatch")
         MT_, MF_ = Matcher(tf), Matcher(ff)
-        okw = MT_.has("return self.to_parquet(save_path)") and MT_.has("return self.to_csv(save_path)")
-        okr = MF_.has("return cls.from_parquet(path, pos_cols, rot_cols)") and MF_.has("return cls.from_csv(path, pos_cols, rot_cols)")
+        def _routes(fn_, M_, callee_, pname_, rest_=()):
+            # `return <recv>.<callee>(<path>, *rest)` where <path> is the path parameter itself or a local bound to Path(<parameter>)
+            for r_ in walk_no_nested(fn_.node):
+                if isinstance(r_, ast.Return) and isinstance(r_.value, ast.Call) and isinstance(r_.value.func, ast.Attribute) and r_.value.func.attr == callee_ and r_.value.args:
+                    a0 = M_.expr(r_.value.args[0])
+                    while isinstance(a0, ast.Call) and (dotted(a0.func) or "").rsplit(".", 1)[-1] == "Path" and a0.args:
+                        a0 = a0.args[0]
+                    if isinstance(a0, ast.Name) and a0.id == pname_ and [norm_src(x) for x in r_.value.args[1:]] == list(rest_):
+                        return True
+            return False
+
+        okw = (MT_.has("return self.to_parquet(save_path)") and MT_.has("return self.to_csv(save_path)")) or \
+            (_routes(tf, MT_, "to_parquet", "save_path") and _routes(tf, MT_, "to_csv", "save_path"))
+        okr = (MF_.has("return cls.from_parquet(path, pos_cols, rot_cols)") and MF_.has("return cls.from_csv(path, pos_cols, rot_cols)")) or \
+            (_routes(ff, MF_, "from_parquet", "path", ("pos_cols", "rot_cols")) and _routes(ff, MF_, "from_csv", "path", ("pos_cols", "rot_cols")))
         rep.ob("S10", ff.anchor, "each suffix is read by the reader of the format it was written in", okw and okr, f"writer ok {okw}, reader ok {okr}", node=ff.node,
                fn=ff, clause="layout", stmt="suffix dispatch targets")
     rep.floor("S10", 10, "(I/O table sites)")
